@@ -879,7 +879,9 @@ fn drain(sim: &mut Sim, order: &mut impl Iterator<Item = u16>, non_fifo: &mut bo
         }
         guard += 1;
         if guard > 10_000 {
-            return Err(Fail::new("healthy cluster: message storm (network never quiet)", sim.trace[sim.trace.len().saturating_sub(40)..].join("\n")));
+            let leaders: Vec<usize> = (0..sim.n).filter(|i| sim.nodes[*i].v_state() == VState::Leader).collect();
+            let cause = if leaders.iter().any(|l| stale_higher_term_tail(sim, *l)) { "a follower's uncommitted tail has a higher term than the leader's log" } else { "network never quiet" };
+            return Err(Fail::new(format!("healthy cluster: message storm ({cause})"), sim.trace[sim.trace.len().saturating_sub(40)..].join("\n")));
         }
         let k = order.next().unwrap_or(0);
         let choice = pick(k, total);
@@ -906,6 +908,13 @@ fn drain(sim: &mut Sim, order: &mut impl Iterator<Item = u16>, non_fifo: &mut bo
             }
         }
     }
+}
+
+/// trigger of the listed C30 finding: some other node's last log entry has a higher term than
+/// the leader's last entry (the leader's older-term entries are then rejected for ever)
+fn stale_higher_term_tail(sim: &Sim, leader: usize) -> bool {
+    let (_, lt, _) = sim.nodes[leader].v_local();
+    (0..sim.n).any(|i| i != leader && sim.nodes[i].v_local().1 > lt)
 }
 
 /// the server's cluster loop calls process() every 10 ms when idle
@@ -948,10 +957,10 @@ fn healthy_case(c: &HealthyCase) -> Result<(CaseInfo, u64), Fail> {
             let leader_committed = committed(l);
             let all_committed = li == lc
                 && (1..=li).all(|k| leader_committed.contains_key(&k))
-                && (0..n).all(|i| {
-                    let (a, _, b) = sim.nodes[i].v_local();
-                    a == li && b == lc && committed(i) == leader_committed
-                });
+                // every node has committed exactly the leader's entries; a follower may still hold
+                // a stale uncommitted entry beyond the leader's log (it is replaced by the next
+                // append), which the property does not speak about
+                && (0..n).all(|i| committed(i) == leader_committed);
             if all_committed {
                 needed = quanta;
                 break;
@@ -962,8 +971,17 @@ fn healthy_case(c: &HealthyCase) -> Result<(CaseInfo, u64), Fail> {
                 .map(|i| format!("node {i}: {:?} term {} log {:?} entries {:?}", sim.nodes[i].v_state(), sim.nodes[i].v_term(), sim.nodes[i].v_local(), sim.nodes[i].storage.entries.iter().map(|e| (e.index, e.term, e.data, e.committed)).collect::<Vec<_>>()))
                 .collect();
             let what = if leaders.len() != 1 { "no single leader" } else if !settled { "not all nodes follow the leader" } else { "appended entries not replicated and committed everywhere" };
+            let sig = if leaders.len() == 1 && stale_higher_term_tail(&sim, leaders[0]) {
+                // one root cause whatever the cluster size: log reconciliation cannot repair such a follower
+                format!("healthy cluster does not converge within the bound: {what} (a follower's uncommitted tail has a higher term than the leader's log)")
+            } else if leaders.is_empty() && (0..n).all(|i| !matches!(sim.nodes[i].v_state(), VState::Follower(_))) {
+                // one root cause whatever the cluster size: nobody leads, nobody follows, terms keep growing
+                "healthy cluster does not converge within the bound: no single leader (candidate livelock: every node keeps starting elections)".to_string()
+            } else {
+                format!("healthy {n}-node cluster does not converge within the bound: {what}")
+            };
             return Err(Fail::new(
-                format!("healthy {n}-node cluster does not converge within the bound: {what}"),
+                sig,
                 format!("after {LIVENESS_BOUND} quanta of {QUANTUM} ms: {}\nlast trace:\n{}", states.join("; "), sim.trace[sim.trace.len().saturating_sub(60)..].join("\n")),
             ));
         }
@@ -1018,7 +1036,7 @@ fn healthy() -> impl Strategy<Value = HealthyCase> {
 
 fn c30(ctx: &mut Ctx) {
     ctx.rule = format!("fault-free schedules for 2-, 3- and 5-node clusters: from the initial state or after a generated faulty prefix (loss, per-node timer skew; the deliveries that trigger the listed C27/C28 findings are excluded from the prefix) the network heals: all node clocks advance together in quanta of {QUANTUM} ms, after each quantum every node's process() runs, and every in-flight request and response is delivered exactly once in a generated order before the next quantum; client appends are issued at the settled leader at generated times. Oracle (bounded liveness, deterministic, no wall clock): within {LIVENESS_BOUND} quanta the cluster reaches a state with exactly one leader, every other node following it, and every appended entry present and committed on every node. Non-trivial: >=2 appended entries and a delivery order different from FIFO. Distinct = hash of the case. This can refute liveness within the bound, never establish it.");
-    let cases = ctx.tier.pick(3000, 100_000);
+    let cases = ctx.tier.pick(30_000, 400_000);
     let max_needed = std::sync::atomic::AtomicU64::new(0);
     let test = |c: &HealthyCase| -> CaseResult {
         let (ci, needed) = healthy_case(c)?;
